@@ -60,7 +60,8 @@ class SpecGen:
             return {k: self.item_spec(v) for k, v in a.items()}
         if isinstance(a, (list, tuple)):
             out = [self.item_spec(v, as_type) for v in a]
-            return tuple(out) if isinstance(a, tuple) else out     # a spec given as a Python structure may hold a tuple: it stays one
+            # a spec given as a Python structure may hold a tuple, which stays one (opt-in: the JSON-route checks want lists)
+            return tuple(out) if isinstance(a, tuple) and getattr(self, "keep_tuples", False) else out
         return a
 
     def leaf_key(self, t):
